@@ -162,24 +162,35 @@ def r3(F, R):
     if len(cands) != 1:
         raise Unverifiable(f"EMIT_FAILED role: {len(cands)}")
     ef = cands[0]
+    # decided on the routine's deep path table (deep.py): per failure kind, which event is handed to the emitter
+    from . import deep as D
+    emit_names = {F.bodies[k].name for k in emit_fns}
+    dpaths = D.Deep(F, ef, opaque="^(" + "|".join(re.escape(n) for n in sorted(emit_names)) + ")$", max_paths=400).run()
+    if not dpaths or any(p.cut for p in dpaths):
+        raise Unverifiable("EMIT_FAILED: empty path table or a loop")
+    efa = {v["name"] for v in F.adts[("cucumber", "runner::basic::ExecutionFailure")]["variants"]}
     table = {}
-    for p in A.enumerate_paths(ef):
+    for p in dpaths:
         var = None
         bg = None
-        for a, o in p.decisions:
-            if a.startswith("discr(") and "ExecutionFailure" in a:
+        for a, o in p.conds:
+            if a[0] == "discr" and isinstance(o, str) and set(o.split("|")) <= efa:
                 var = o
-            if a.endswith("is_background"):
-                bg = o
+            elif isinstance(o, bool) and D.mentions(a, lambda x: x[0] == "field" and isinstance(x[1], tuple) and x[1][0] == "as" and x[1][2] == "StepPanicked"):
+                bg = "true" if o else "false"
         tags = set()
-        for s, t in p.calls():
-            cb = F.callee_body(t)
-            if cb is not None and cb.key in emit_fns:
-                tags |= {x for x in ctor_tags(F, ef, t["args"][1]) if re.search(r"::(Hook|Step|Scenario)::", x)}
-                hk = A.slice_back(ef, [t["args"][1]])
-                tags |= {f"HookType::{rv['variant']}" for _, rv in hk.aggs if rv.get("adt") == "event::HookType"}
-        n_sends = sum(1 for s, t in p.calls() if F.callee_body(t) is not None and F.callee_body(t).key in emit_fns)
-        table[(var, bg)] = (n_sends, tags)
+        n_sends = 0
+        for e in p.effects:
+            if e[0] == "call" and e[1] in emit_names:
+                n_sends += 1
+                for x in D.subterms(e[2]):
+                    if x[0] == "variant" and len(x) == 4 and re.match(r"^event::(Hook|Step|Scenario|HookType)$", x[1]):
+                        tags.add(f"{x[1]}::{x[2]}" if x[1] != "event::HookType" else f"HookType::{x[2]}")
+        key = (var, bg)
+        if key in table and table[key] != (n_sends, tags):
+            table[key] = (-1, table[key][1] | tags)  # two paths of one arm disagree
+        else:
+            table[key] = (n_sends, tags)
     def has(key, n, *need):
         v = table.get(key)
         return v is not None and v[0] == n and all(any(x.endswith(nd) for x in v[1]) for nd in need)
@@ -436,43 +447,42 @@ def _nth(b, s):
 
 
 def r7(F, R):
-    rs, root, tree = roles.attempt_tree(F)
-    finds = [(b, s, t) for b in tree for s, t in b.calls(lambda t: callee_is(t, r"step::Collection::<.*>::find$", r"Collection.*::find$"))]
-    if len(finds) != 1:
-        raise Unverifiable(f"Collection::find calls in the attempt: {len(finds)}")
-    b, s, t = finds[0]
-    dl = t["dest"]["l"]
-    # AmbiguousMatch aggregate under Err
-    amb = [(s2, st) for s2, st in b.assigns(lambda st: st["rv"]["k"] == "agg" and st["rv"].get("adt") == "event::StepError" and st["rv"]["variant"] == "AmbiguousMatch")]
-    ok = False
-    for s2, st in amb:
-        vc = A.vc_at(b, s2)
-        if vc.get(f"_{dl}") == frozenset(["Err"]):
-            sl = A.slice_back(b, st["rv"]["ops"])
-            ok = dl in sl.locals
-    R.check(ok, "ambiguous-is-failed-ambiguous", amb[0][0] if amb else s, "Err(e) => StepError::AmbiguousMatch(e)", "an ambiguous match is not reported as StepError::AmbiguousMatch carrying the error")
-    # Ok(None): returns Ok with captures None -> later classified skipped (not panic, not passed)
-    rets = [(s2, st) for s2, st in b.assigns(lambda st: st["pl"]["l"] == 0 and not st["pl"]["p"] and st["rv"]["k"] == "agg")]
-    none_ret = []
-    for s2, st in rets:
-        vc = A.vc_at(b, s2)
-        k = [kk for kk, v in vc.items() if kk.startswith(f"_{dl}@Ok") and v == frozenset(["None"])]
-        if k and vc.get(f"_{dl}") == frozenset(["Ok"]):
-            none_ret.append((s2, st))
-    ok_n = False
-    if len(none_ret) == 1:
-        st = none_ret[0][1]
-        if st["rv"]["variant"] == "Ok":
-            tup = A.slice_back(b, st["rv"]["ops"])
-            nones = [rv for _, rv in tup.aggs if rv.get("adt") == "std::option::Option" and rv["variant"] == "None"]
-            ok_n = len(nones) >= 1 and not tup.has_call(r"World::new$")
-    R.check(ok_n, "no-match-is-skipped", none_ret[0][0] if none_ret else s, "Ok(None) => Ok((None, None, world)) (skipped, no World created)", "a step without a matching definition is not routed to the skipped outcome")
-    pan = [(s2, st) for s2, st in b.assigns(lambda st: st["rv"]["k"] == "agg" and st["rv"].get("adt") == "event::StepError" and st["rv"]["variant"] == "Panic")]
-    R.check(len(pan) == 3, "panic-sites", b, "World Err, World panic, step panic", f"{len(pan)} StepError::Panic sites")
-    for s2, st in pan:
-        vc = A.vc_at(b, s2)
-        errs = [k for k, v in vc.items() if v == frozenset(["Err"])]
-        R.check(bool(errs), f"panic-only-on-err/{_idx(pan, s2)}", s2, "StepError::Panic only on an Err edge", "StepError::Panic is constructed on a non-error path")
+    """Outcome table of the step block (lookup -> lazy World -> step fn), on its deep path table (attempt.py)."""
+    from . import attempt as AT
+    from . import deep as D
+    T = AT.StepTable(F)
+    b = T.body
+    kinds = set()
+    for r in T.rows:
+        p = r["p"]
+        se = r["step_error"]
+        if r["find"] == "Err":
+            ok = se is not None and se[2] == "AmbiguousMatch" and D.mentions(se, lambda x: x == ("field", ("as", r["find_term"], "Err"), 0)) and not r["world_new"] and not r["step_call"]
+            R.check(ok, "ambiguous-is-failed-ambiguous", b, "Err(e) => StepError::AmbiguousMatch(e)", "an ambiguous match is not reported as StepError::AmbiguousMatch carrying the error (or the step / World::new still runs)")
+            continue
+        if r["find"] == "Ok" and r["found"] == "None":
+            ok = r["ret"] == "Ok" and not r["world_new"] and not r["step_call"] and D.is_variant(p.ret[3][0][1][0] if p.ret[3][0][0] == "tuple" else None, "std::option::Option", "None")
+            R.check(ok, "no-match-is-skipped", b, "Ok(None) => Ok((None, None, world)) (skipped, no World created)", "a step without a matching definition is not routed to the skipped outcome")
+            continue
+        if r["find"] != "Ok" or r["found"] != "Some":
+            R.violation("lookup-decides", b, "a path of the step block does not branch on the result of Collection::find")
+            continue
+        failure = None
+        if r["world_new"] and r["world_err"]:
+            failure = "world-err"
+        elif r["panic_src"] == ["world"]:
+            failure = "world-panic"
+        elif r["panic_src"] == ["callback"]:
+            failure = "step-panic"
+        elif r["panic_src"]:
+            failure = "unclassified-panic"
+        if failure:
+            kinds.add(failure)
+            R.check(se is not None and se[2] == "Panic", f"failure-is-panic/{failure}", b, f"{failure} => StepError::Panic", f"{failure} is reported as {se[2] if se else 'success'} instead of StepError::Panic")
+        else:
+            R.check(r["ret"] == "Ok" and bool(r["step_call"]), "panic-only-on-err", b, "no failure => Ok after calling the step fn",
+                    f"without any failure the step block returns {r['ret']}{' ' + se[2] if se else ''} (StepError::Panic on a non-error path, or the step fn is not called)")
+    R.check(kinds == {"world-err", "world-panic", "step-panic"}, "panic-sites", b, "World Err, World panic, step panic", f"failure kinds seen: {sorted(kinds)} (expected World Err, World panic, step panic)")
     R.floor(6)
 
 
